@@ -46,7 +46,7 @@ def canon(v):
     if v[0] == "tup":
         return "(" + ", ".join(canon(x) for x in v[1]) + ")"
     if v[0] == "struct":
-        return "{" + ", ".join(f"{k}: {canon(x)}" for k, x in sorted(v[1].items()) if k != "__default__") + "}"
+        return "{" + ", ".join(f"{k}: {canon(x)}" for k, x in sorted(v[1].items()) if k not in ("__default__", "__base__")) + "}"
     if v[0] in ("obj", "variant"):
         return v[1]
     if v[0] == "str":
@@ -177,7 +177,7 @@ def equal(a, b):
     if a[0] == "tup":
         return len(a[1]) == len(b[1]) and all(equal(x, y) for x, y in zip(a[1], b[1]))
     if a[0] in ("struct", "match"):
-        ka, kb = set(a[1]) - {"__default__"}, set(b[1]) - {"__default__"}
+        ka, kb = set(a[1]) - {"__default__", "__base__"}, set(b[1]) - {"__default__", "__base__"}
         return ka == kb and all(equal(a[1][k], b[1][k]) for k in ka)
     if a[0] in ("obj", "str", "bool", "variant"):
         return a[1] == b[1]
@@ -288,6 +288,12 @@ class Evaluator:
             if pat.get("sub"):
                 self._bind(pat["sub"], val, env, counter)
         elif p == "tuple":
+            names = [q.get("name") for q in pat["pats"] if q.get("p") == "bind"]
+            if len(names) == len(pat["pats"]) > 1 and len(set(names)) == 1 and val is not None and not is_form(val) and val[0] == "tup" and len(val[1]) == len(names):
+                # `(a.x, a.y) = (p, q)` is desugared to `let (lhs, lhs) = (p, q); a.x = lhs; a.y = lhs;` - the same
+                # name for different bindings, read once each and in order
+                env[names[0]] = ("__queue__", list(val[1]))
+                return
             for i, q in enumerate(pat["pats"]):
                 sub = None
                 if val is not None and not is_form(val) and val[0] == "tup" and i < len(val[1]):
@@ -390,6 +396,8 @@ class Evaluator:
         if is_form(base):
             return None
         if base[0] == "struct":
+            if name not in base[1] and "__base__" in base[1]:
+                return self._field(base[1]["__base__"], name)
             return base[1].get(name)
         if base[0] == "tup" and name.isdigit() and int(name) < len(base[1]):
             return base[1][int(name)]
@@ -410,6 +418,8 @@ class Evaluator:
         if n is None:
             return None
         k = n.get("k")
+        if k == "__value__":
+            return n["v"]
         if k == "Lit":
             lit = n.get("lit", {})
             if "str" in lit:
@@ -425,6 +435,11 @@ class Evaluator:
                 if ty in self.presets:
                     return self.presets[ty]
                 v = env.get(l)
+                if isinstance(v, tuple) and v and v[0] == "__queue__":
+                    if not v[1]:
+                        return None
+                    env[l] = ("__queue__", v[1][1:])
+                    return v[1][0]
                 if v is None:
                     if _scalar_ty(ty):
                         return {l: Fraction(1)}
@@ -792,6 +807,8 @@ class Evaluator:
             elif l.get("k") == "Field":
                 base = l["x"]
                 bl = (base.get("res") or {}).get("local") if base.get("k") == "Path" else None
+                if bl and bl in env and env[bl] is not None and not is_form(env[bl]) and env[bl][0] == "obj":
+                    env[bl] = ("struct", {"__base__": env[bl]})  # field-wise update of an otherwise opaque object
                 if bl and bl in env and env[bl] is not None and not is_form(env[bl]) and env[bl][0] == "struct":
                     nv = dict(env[bl][1])
                     nv[l["name"]] = v
@@ -806,6 +823,12 @@ class Evaluator:
                 r = self.eval(s["r"], env, st)
                 op = (s.get("op") or "").replace("Assign", "")
                 env[l["res"]["local"]] = self._binary(op, cur, r) if op in ("Add", "Sub", "Mul", "Div") else None
+            elif l.get("k") == "Field":
+                cur = self.eval(l, env, st)
+                r = self.eval(s["r"], env, st)
+                op = (s.get("op") or "").replace("Assign", "")
+                v = self._binary(op, cur, r) if op in ("Add", "Sub", "Mul", "Div") else None
+                self._stmt({"k": "Assign", "l": l, "r": {"k": "__value__", "v": v}}, env, st)
             return None
         if k == "Ret":
             raise _Return(self.eval(s.get("x") or s.get("e"), env, st) if (s.get("x") or s.get("e")) else ("tup", []))
